@@ -86,7 +86,10 @@ LocOf(m, x) == IF x \in DOMAIN m.loc THEN m.loc[x] ELSE 0
 Emit(m, e) == [m EXCEPT !.ev = Append(@, e)]
 Stuck(m)   == [m EXCEPT !.st = "stuck"]
 
-RetVal(m, ar) == IF ar >= 1 /\ Len(m.vs) >= 1 THEN Top(m.vs) ELSE -1
+\* the returned value(s) as one number: the top value, for two results also the one below it
+RetVal(m, ar) == IF ar = 0 \/ Len(m.vs) < ar THEN -1
+                 ELSE IF ar = 1 THEN Top(m.vs)
+                 ELSE Top(m.vs) * 1000 + m.vs[Len(m.vs) - 1]
 Return(m, ar) == [Emit(m, [e |-> "ret", v |-> RetVal(m, ar)]) EXCEPT !.st = "ret"]
 Trap(m)       == [Emit(m, [e |-> "trap"]) EXCEPT !.st = "trap"]
 
